@@ -442,6 +442,99 @@ pub fn run(tier: &str) -> i32 {
             });
         }
     });
+    // bursts while a link is stalled: one peer does not take anything from its link for a while (busy, paused, full socket
+    // buffers) and the clients keep writing, so more than a hundred replication messages wait for it inside the sending
+    // node; when the link moves again every one of them arrives and the nodes converge
+    let burst = Mutex::new((0u64, 0u64, 0u64));
+    let n_bursts = if thorough { 160 } else { 12 };
+    let next = std::sync::atomic::AtomicUsize::new(0);
+    std::thread::scope(|sc| {
+        for _ in 0..workers().min(6) {
+            let (next, v, burst) = (&next, &v, &burst);
+            sc.spawn(move || loop {
+                let i = next.fetch_add(1, std::sync::atomic::Ordering::SeqCst);
+                if i >= n_bursts {
+                    break;
+                }
+                let mut r = Rng::new(seed().wrapping_mul(4_000_037).wrapping_add(i as u64));
+                let n = 2 + i % 2;
+                let Some(mut c) = form_cluster(n, r.next(), "c04b") else {
+                    v.inconclusive("cluster formation failed");
+                    continue;
+                };
+                c.budget = 60_000;
+                // the writers sit on the primary (its link to the last secondary is stalled) or on the last secondary (its
+                // link to the primary is stalled: what it forwards waits)
+                let from_secondary = i % 3 == 2;
+                let (writer_node, stalled) = if from_secondary { (n - 1, (n - 1, 0)) } else { (0, (0, n - 1)) };
+                c.open_session("adm", 0);
+                for l in ["auth admin pwd", "create-db bdb tok", "use-db bdb tok", "set seed 1"] {
+                    c.send("adm", l);
+                }
+                let _ = c.run_until_quiet();
+                c.open_session("w", writer_node);
+                c.send("w", "use-db bdb tok");
+                let _ = c.run_until_quiet();
+                c.stalled.insert(stalled);
+                let writes = *r.pick(&[60usize, 105, 130, 260]);
+                let nkeys = *r.pick(&[1usize, 7, 400]);
+                for j in 0..writes {
+                    match (j + i) % 9 {
+                        0 => c.send("w", &format!("increment cnt{} 1", j % nkeys.min(3))),
+                        1 if j > 20 => c.send("w", &format!("remove b{}", (j - 10) % nkeys)),
+                        _ => c.send("w", &format!("set b{} v{}", j % nkeys, j)),
+                    }
+                }
+                let q1 = c.run_until_quiet();
+                c.stalled.clear();
+                let q2 = c.run_until_quiet();
+                {
+                    let mut b = burst.lock().unwrap();
+                    b.0 += 1;
+                    b.1 += writes as u64;
+                }
+                if !matches!(q1, Outcome::Quiet(_)) || !matches!(q2, Outcome::Quiet(_)) {
+                    v.report(json!({"check": "convergence", "problem": "no-quiescence", "context": "burst-while-a-link-was-stalled"}), json!({"nodes": n, "writes": writes, "outcomes": format!("{:?} {:?}", q1, q2)}));
+                    c.shutdown();
+                    continue;
+                }
+                if !c.panics().is_empty() {
+                    v.report(json!({"check": "convergence", "problem": "service-thread-panicked", "context": "burst-while-a-link-was-stalled"}), json!({"panics": c.panics()}));
+                    c.shutdown();
+                    continue;
+                }
+                let sets: Vec<Data> = (0..n).map(|x| c.dataset(x)).collect();
+                let prim = sets[0].iter().find(|(k, _)| k.starts_with("bdb ")).map(|(_, d)| d.clone()).unwrap_or_default();
+                'nodes: for x in 1..n {
+                    let other = sets[x].iter().find(|(k, _)| k.starts_with("bdb ")).map(|(_, d)| d.clone()).unwrap_or_default();
+                    let mut keys: BTreeSet<&String> = prim.keys().collect();
+                    keys.extend(other.keys());
+                    for k in keys {
+                        if k == "$connections" {
+                            continue;
+                        }
+                        burst.lock().unwrap().2 += 1;
+                        // (a set / increment forwarded by a secondary comes back to it and is applied twice there: the
+                        // listed version-ahead finding; values must agree all the same)
+                        let (a, b) = (prim.get(k), other.get(k));
+                        let differs = match (a, b) {
+                            (Some(a), Some(b)) => a.0 != b.0 || (!from_secondary && a.1 != b.1),
+                            (None, None) => false,
+                            _ => true,
+                        };
+                        if differs {
+                            v.report(json!({"check": "convergence", "problem": if a.is_none() || b.is_none() { "key-on-one-node-only" } else { "value-or-version-differs" }, "context": "burst-while-a-link-was-stalled", "writers_at": if from_secondary { "secondary" } else { "primary" }, "differs_at": if x == stalled.0.max(stalled.1) { "the-node-behind-the-stalled-link" } else { "another-node" }}),
+                                json!({"nodes": n, "writes": writes, "keys": nkeys, "stalled_link": [stalled.0, stalled.1], "key": k, "primary": a, "node": x, "there": b, "link_lines": c.link_log().len()}));
+                            break 'nodes;
+                        }
+                    }
+                }
+                c.shutdown();
+            });
+        }
+    });
+    let burst = burst.into_inner().unwrap();
+    ev.set("bursts_while_a_link_was_stalled", json!({"runs": burst.0, "writes": burst.1, "key_comparisons": burst.2}));
     let s = st.into_inner().unwrap();
     ev.evaluations = s.runs;
     ev.distinct_nontrivial = s.shapes.len() as u64;
